@@ -111,21 +111,44 @@ func genericShrink(t *Trial, columns bool) []*Trial {
 		}
 	}
 	if columns && allCanon && nFasta > 0 && width > 1 {
-		for j := width - 1; j >= 0; j-- {
-			c := cloneTrial(t)
-			for _, n := range names {
-				s := t.Case.Files[n]
-				if !isFastaText(s) || strings.HasPrefix(n, "anno") {
+		// delta debugging over alignment columns (dropped from all FASTA files at once): big ranges first, single
+		// columns last; candidates are built only as far as the cap below lets them be tried
+		type parsed struct {
+			name string
+			recs []fastaRec
+		}
+		var fs []parsed
+		for _, n := range names {
+			s := t.Case.Files[n]
+			if !isFastaText(s) || strings.HasPrefix(n, "anno") {
+				continue
+			}
+			_, recs := canonFasta(s)
+			fs = append(fs, parsed{n, recs})
+		}
+	cols:
+		for size := (width + 1) / 2; size >= 1; size /= 2 {
+			for hi := width; hi > 0; hi -= size {
+				lo := hi - size
+				if lo < 0 {
+					lo = 0
+				}
+				if hi-lo >= width {
 					continue
 				}
-				_, recs := canonFasta(s)
-				var sb strings.Builder
-				for _, r := range recs {
-					sb.WriteString(r.head + "\n" + r.seq[0][:j] + r.seq[0][j+1:] + "\n")
+				if len(out) >= 120 {
+					break cols
 				}
-				c.Case.Files[n] = sb.String()
+				c := cloneTrial(t)
+				for _, f := range fs {
+					var sb strings.Builder
+					for _, r := range f.recs {
+						sb.WriteString(r.head + "\n" + r.seq[0][:lo] + r.seq[0][hi:] + "\n")
+					}
+					c.Case.Files[f.name] = sb.String()
+				}
+				out = append(out, c)
 			}
-			out = append(out, c)
 		}
 	}
 	if len(out) > 120 {
